@@ -319,6 +319,26 @@ pub fn run(g: &mut Global) {
         },
         &check,
     );
+    // the wake-up bar placed on, just before and just after the first step at which ATR(n) is subnormal
+    // (the averages of movement pass through the subnormal range only once, for a few dozen steps)
+    let wk = [(Kind::Atr, false), (Kind::Atr, true), (Kind::Kc, false), (Kind::Ce, false)];
+    g.exhaustive(
+        "wake_at_subnormal",
+        4 * 4 * 10,
+        &move |i| {
+            let (kind, scalar) = wk[(i % 4) as usize];
+            let n = [2usize, 3, 5, 14][((i / 4) % 4) as usize];
+            let d = crate::hist::WAKE_OFFSETS[(i / 16) as usize % 10];
+            let bars = crate::hist::sleep_wake_at_subnormal(seed ^ (i % 16).wrapping_mul(0x9E3779B97F4A7C15), 100.0, n, d);
+            let cfg = crate::hist::cfg_small(kind, n);
+            if scalar {
+                Case { cfg, scalar: true, xs: bars.iter().map(|b| X(b.c)).collect(), bars: vec![] }
+            } else {
+                Case { cfg, scalar: false, xs: vec![], bars }
+            }
+        },
+        &check,
+    );
     // ultra-long single-instance streams: beyond 2^16 inputs for every configuration, beyond 2^24 for a few
     let lc: Vec<(Cfg, bool)> = vec![
         (Cfg { kind: Kind::Ema, p: vec![3], m: X(0.0) }, true),
